@@ -121,6 +121,8 @@ def _count_uppercase_constants(tree: ast.Module) -> int:
     for node in tree.body:
         if isinstance(node, ast.Assign):
             count += _count_numeric_constant_targets(node)
+        elif isinstance(node, ast.AnnAssign) and node.value is not None:
+            count += int(_is_numeric_constant(node.value) and _is_uppercase_name_target(node.target))
     return count
 
 
